@@ -353,6 +353,42 @@ fn check_sequence(seq: &[&Field]) -> Result<String, String> {
             Err(_) if cap < total => {}
             other => return Err(format!("slice capacity {} (needed {}): {:?}", cap, total, other)),
         }
+        // a caller that keeps writing after an error: every write that reported success must be
+        // read back, in order, from what the packer says it has written
+        if cap < total {
+            let mut arena2 = vec![0xc5u8; cap + 4];
+            let (oks, written): (Vec<bool>, Vec<u8>) = with_packer(&mut arena2[..cap], |mut p| {
+                let oks: Vec<bool> = seq
+                    .iter()
+                    .map(|f| match f {
+                        Field::Int(v) => p.write_int(*v).is_ok(),
+                        Field::Str(s) => p.write_string(s).is_ok(),
+                        Field::Data(d) => p.write_data(d).is_ok(),
+                        Field::Raw(r) => p.write_raw(r).is_ok(),
+                    })
+                    .collect();
+                (oks, p.written().to_vec())
+            });
+            if arena2[cap..].iter().any(|&b| b != 0xc5) {
+                return Err(format!("slice capacity {}: wrote past the buffer while continuing after an error", cap));
+            }
+            let mut u = Unpacker::new(&written);
+            let mut w: Vec<Warning> = Vec::new();
+            for (k, (f, ok)) in seq.iter().zip(&oks).enumerate() {
+                if !*ok {
+                    continue;
+                }
+                let same = match f {
+                    Field::Int(v) => u.read_int(&mut w) == Ok(*v),
+                    Field::Str(s) => u.read_string() == Ok(&s[..]),
+                    Field::Data(d) => u.read_data(&mut w) == Ok(&d[..]),
+                    Field::Raw(r) => u.read_raw(r.len()) == Ok(&r[..]),
+                };
+                if !same {
+                    return Err(format!("slice capacity {}: write #{} reported success after an earlier one had failed ({:?}), but is not read back", cap, k, oks));
+                }
+            }
+        }
         // Vec with that spare capacity and a pre-existing length
         let mut v: Vec<u8> = Vec::with_capacity(cap + 2);
         v.extend_from_slice(&[7, 7]);
